@@ -53,10 +53,15 @@ def forms(f, kind, rnd, depth=0):
     # "unionmember": a member of a typing.Union / typing.Optional — as "general", except that an AnyOf member is never
     # itself written as a typing Union/Optional there (typing would flatten it into the enclosing Union: a nested
     # typing Union inside a Union/Optional node is therefore always an INTENDED flattening spelling, see union_shapes)
-    general = kind in ("general", "unionmember")
-    plain_ok = kind in ("general", "orright", "unionmember")     # a bare mapped builtin name is acceptable
+    # "subarg": an argument of Cls[...] (FieldMeta.__getitem__) — as "general", plus the parameterless FUNCTION declared
+    # `-> Field` (is_function_returning_field), which is recognised there, as an annotation and as a class attribute,
+    # and nowhere else (typing arguments, items=/fields=, operands of |)
+    general = kind in ("general", "unionmember", "subarg")
+    plain_ok = kind in ("general", "orright", "unionmember", "subarg")     # a bare mapped builtin name is acceptable
     sub = lambda g, k="general": pick(g, k, rnd, depth + 1)
     out = [("inst", f)] if t != "ref" and inst_ok(f) else []
+    if kind == "subarg" and func_spellable(f):
+        out.append(("func", f, rnd.random() < 0.5))
     if t == "num":
         cls = G.SIGN_CLASS[(f["k"], f["s"])]
         if _unconstrained_num(f):
@@ -93,7 +98,7 @@ def forms(f, kind, rnd, depth=0):
             if general:
                 out.append(("pep585", key, [sub(f["item"])]))
                 out.append(("typing", TYPING_OF[key], [sub(f["item"])]))
-            out.append(("sub", cls, [sub(f["item"])]))
+            out.append(("sub", cls, [sub(f["item"], "subarg")]))
         out.append(("ctor1", cls, sub(f["item"], "fieldy"), list(f["sz"]), bool(f.get("uniq"))))
     elif t == "seqpos":
         cls, key = ("Array", "list") if f["k"] == "list" else ("Deque", "collections.deque")
@@ -101,7 +106,7 @@ def forms(f, kind, rnd, depth=0):
         if plain and len(f["items"]) >= 2:
             if general:
                 out.append(("pep585", key, [sub(g) for g in f["items"]]))
-            out.append(("sub", cls, [sub(g) for g in f["items"]]))
+            out.append(("sub", cls, [sub(g, "subarg") for g in f["items"]]))
         out.append(("ctorN", cls, [sub(g, "fieldy") for g in f["items"]], list(f["sz"]), bool(f.get("uniq")),
                     f.get("additional")))
     elif t == "set":
@@ -118,7 +123,7 @@ def forms(f, kind, rnd, depth=0):
                 if general:
                     out.append(("pep585", key, [sub(f["item"])]))
                     out.append(("typing", TYPING_OF[key], [sub(f["item"])]))
-                out.append(("sub", cls, [sub(f["item"])]))
+                out.append(("sub", cls, [sub(f["item"], "subarg")]))
             out.append(("ctor1", cls, sub(f["item"], "fieldy"), list(f["sz"]), False))
     elif t == "tuple":
         items = f["items"]
@@ -127,7 +132,7 @@ def forms(f, kind, rnd, depth=0):
             if general:        # one item too: tuple[int] / typing.Tuple[int] (Tuple(items=<class>) instantiates the class)
                 out.append(("pep585", "tuple", [sub(g) for g in items]))
                 out.append(("typing", "Tuple", [sub(g) for g in items]))
-            out.append(("sub", "Tuple", [sub(g) for g in items]))
+            out.append(("sub", "Tuple", [sub(g, "subarg") for g in items]))
         if not direct_ref:
             out.append(("ctorN", "Tuple", [sub(g, "fieldy") for g in items], NO_SZ, bool(f.get("uniq")), None))
             if len(items) == 1:
@@ -144,12 +149,12 @@ def forms(f, kind, rnd, depth=0):
             if general:
                 out.append(("pep585", "dict", [sub(f["kf"]), sub(f["vf"])]))
                 out.append(("typing", "Dict", [sub(f["kf"]), sub(f["vf"])]))
-            out.append(("sub", "Map", [sub(f["kf"]), sub(f["vf"])]))
+            out.append(("sub", "Map", [sub(f["kf"], "subarg"), sub(f["vf"], "subarg")]))
         out.append(("ctorN", "Map", [sub(f["kf"], "fieldy"), sub(f["vf"], "fieldy")], list(f["sz"]), False, None))
     elif t in ("allof", "anyof", "oneof", "not"):
         cls = {"allof": "AllOf", "anyof": "AnyOf", "oneof": "OneOf", "not": "NotField"}[t]
         fs = f["fs"]
-        member = lambda g: ("none",) if is_none(g) and rnd.random() < 0.7 else sub(g)
+        member = lambda g: ("none",) if is_none(g) and rnd.random() < 0.7 else sub(g, "subarg")
         out.append(("sub", cls, [member(g) for g in fs]))
         out.append(("ctorN", cls, [sub(g, "fieldy") for g in fs], NO_SZ, False, None))
         if t == "anyof":
@@ -273,6 +278,8 @@ def model_key(s, in_typing=False):
         return ("U", tuple(model_key(a, True) for a in flat_leaves(s)))
     if k == "fcls":
         return ("C", s[1])
+    if k == "func":
+        return ("F", func_name(s[1], s[2]))
     if k == "struct":
         return ("S", s[1])
     _uniq[0] += 1
@@ -328,6 +335,44 @@ def _kwargs(sz, uniq, additional, default_src):
     return out
 
 
+# ------------------------------------------------------------------ functions returning a Field
+# ("func", f, quoted): the NAME of a module-level `def Fn() -> Field: return <f>` (quoted: `-> "Field"`); the
+# definitions are collected here and written at the top of every generated module (module_prelude()).
+_FUNC_DEFS = {}
+
+
+def func_spellable(f):
+    return f["t"] != "ref" and inst_ok(f)
+
+
+def func_name(f, quoted):
+    key = (G.field_src(f), bool(quoted))
+    if key not in _FUNC_DEFS:
+        _FUNC_DEFS[key] = "Fn%d%s" % (len(_FUNC_DEFS), "q" if quoted else "")
+    return _FUNC_DEFS[key]
+
+
+def func_prelude(text=None):
+    import re
+    used = None if text is None else set(re.findall(r"\bFn\d+q?\b", text))
+    return "".join("def %s() -> %s:\n    return %s\n" % (name, '"Field"' if q else "Field", src)
+                   for (src, q), name in _FUNC_DEFS.items() if used is None or name in used)
+
+
+def module_prelude(text=None):
+    """Imports + the function-field definitions (those named in `text`; all rendered so far when text is None)."""
+    return MODULE_IMPORTS + "from typedpy import Field\n" + func_prelude(text)
+
+
+def func_prelude_since(k):
+    return "".join("def %s() -> %s:\n    return %s\n" % (name, '"Field"' if q else "Field", src)
+                   for (src, q), name in list(_FUNC_DEFS.items())[k:])
+
+
+def n_func_defs():
+    return len(_FUNC_DEFS)
+
+
 def inline(s):
     """The spelling with every ("alias", name, target) node replaced by its target (("lit", v) nodes are kept)."""
     if isinstance(s, tuple) and s and s[0] == "alias":
@@ -354,6 +399,8 @@ def render(s, default_src=None):
     k = s[0]
     if k == "alias":
         return s[1]
+    if k == "func":
+        return func_name(s[1], s[2])
     if k == "lit":
         return G.py_src(s[1])
     if default_src is not None and k not in ("inst", "ctor1", "ctorN"):
@@ -410,6 +457,8 @@ def signature(s, depth=0):
         return k
     if k == "inst":
         return "inst(%s)" % s[1]["t"]
+    if k == "func":
+        return "func%s(%s)" % ("q" if s[2] else "", s[1]["t"])
     if depth >= 2:
         return k
     if k in ("typing", "pep585", "sub"):
@@ -497,6 +546,8 @@ def emit(s):
         return "(TFieldCls %s)" % E.pstr(s[1])
     if k == "inst":
         return "(TInst %s)" % G.emit_field(s[1])
+    if k == "func":
+        return "(TFunc %s %s)" % (G.emit_field(s[1]), E.blit(bool(s[2]) or FUTURE_MODULE[0]))
     if k == "struct":
         return "(TStruct %s)" % E.pstr(s[1])
     if k == "sub":
@@ -508,9 +559,13 @@ def emit(s):
     raise ValueError(s)
 
 
+FUTURE_MODULE = [False]      # emit(): the spelling lives in a module with `from __future__ import annotations`
+                             # (every return annotation of the module is a string)
+
+
 def fields_in(s, acc):
     for n in walk(s):
-        if n[0] == "inst":
+        if n[0] in ("inst", "func"):
             acc.append(n[1])
     return acc
 
